@@ -211,6 +211,110 @@ func genSeries(r *gen.Rand, lset labels.Labels, kind string, n int, t0 int64) se
 	return series{lset: lset, smps: l}
 }
 
+// ---- series with a life cycle ------------------------------------------------------------------
+// Fixed grid of lifeN scrapes (0 .. lifeN*15s = 20 min). A life cycle says at which grid points a
+// series has a sample: it may start late, end early (optionally with a staleness marker right
+// after its last sample) and have one gap longer than the 5 min lookback (optionally opened by a
+// staleness marker). Range queries stepping over the grid see the series appear and disappear.
+const lifeN = 80
+
+type life struct {
+	start, end       int // samples at grid points start <= i < end
+	gapFrom, gapTo   int // no samples at gapFrom <= i < gapTo (gapFrom == gapTo: no gap)
+	staleEnd, staleG bool
+}
+
+func genLife(r *gen.Rand) life {
+	l := life{start: 0, end: lifeN}
+	if r.Chance(1, 2) {
+		l.start = 1 + r.Intn(30)
+	}
+	if r.Chance(1, 2) {
+		l.end = 45 + r.Intn(30)
+	}
+	if r.Chance(1, 2) {
+		l.gapFrom = l.start + 3 + r.Intn(15)
+		l.gapTo = l.gapFrom + 22 + r.Intn(14) // 330 s .. 525 s: around and beyond the lookback
+	}
+	l.staleEnd, l.staleG = r.Bool(), r.Bool()
+	return l
+}
+
+func (l life) has(i int) bool {
+	return i >= l.start && i < l.end && !(i >= l.gapFrom && i < l.gapTo)
+}
+
+// genLifeSeries: kind "classic" (counter value scale*(i+1)), "hist", "fhist", "cbh", "float".
+func genLifeSeries(r *gen.Rand, lset labels.Labels, kind string, l life, scale float64) series {
+	var out []chunks.Sample
+	stale := func(i int) {
+		out = append(out, smp{t: int64(i) * scrape, f: math.Float64frombits(value.StaleNaN)})
+	}
+	hbase := int64(r.Intn(3))
+	for i := 0; i < lifeN; i++ {
+		if !l.has(i) {
+			if i > 0 && l.has(i-1) && ((i == l.end && l.staleEnd) || (i == l.gapFrom && l.staleG)) {
+				stale(i)
+			}
+			continue
+		}
+		s := smp{t: int64(i) * scrape}
+		switch kind {
+		case "classic", "float":
+			s.f = scale * float64(i+1)
+			if r.Chance(1, 25) {
+				s.f = gen.Pick(r, specialFloats)
+			}
+		case "hist":
+			hbase += int64(r.Intn(3))
+			if r.Chance(1, 12) {
+				hbase = 0
+			}
+			s.h = tsdbutil.GenerateTestHistogram(hbase)
+		case "fhist":
+			hbase += int64(r.Intn(3))
+			s.fh = tsdbutil.GenerateTestFloatHistogram(hbase)
+		case "cbh":
+			hbase += int64(r.Intn(3))
+			s.fh = tsdbutil.GenerateTestCustomBucketsFloatHistogram(hbase)
+		}
+		out = append(out, s)
+	}
+	return series{lset: lset, smps: out}
+}
+
+// addLifeMetrics adds cbk_bucket (classic histograms whose series appear and disappear, with
+// duplicate spellings of le), nh (native histograms with life cycles), cnh (a classic and a
+// native histogram under one name) and lf (floats with life cycles).
+func addLifeMetrics(r *gen.Rand, d *dataset) {
+	les := []struct {
+		le    string
+		scale float64
+	}{{"0.1", 1}, {"1", 2}, {"1.0", 2}, {"10", 3}, {"1e1", 3}, {"+Inf", 4}, {"Inf", 4}}
+	for _, j := range []string{"a", "b", "c"} {
+		for _, in := range []string{"i0", "i1"} {
+			grp := genLife(r) // the whole classic histogram shares a life cycle ...
+			for _, le := range les {
+				if (le.le == "1.0" || le.le == "1e1" || le.le == "Inf") && !r.Chance(1, 3) {
+					continue
+				}
+				l := grp
+				if r.Chance(1, 5) {
+					l = genLife(r) // ... except for a straying bucket now and then
+				}
+				d.series = append(d.series, genLifeSeries(r, labels.FromStrings("__name__", "cbk_bucket", "job", j, "instance", in, "le", le.le), "classic", l, le.scale))
+			}
+			d.series = append(d.series, genLifeSeries(r, labels.FromStrings("__name__", "nh", "job", j, "instance", in), gen.Pick(r, []string{"hist", "fhist", "cbh"}), genLife(r), 1))
+			d.series = append(d.series, genLifeSeries(r, labels.FromStrings("__name__", "lf", "job", j, "instance", in), "float", genLife(r), 1))
+		}
+		// one name carrying classic buckets and a native histogram, with independent life cycles
+		for _, le := range []string{"1", "+Inf"} {
+			d.series = append(d.series, genLifeSeries(r, labels.FromStrings("__name__", "cnh", "job", j, "le", le), "classic", genLife(r), 2))
+		}
+		d.series = append(d.series, genLifeSeries(r, labels.FromStrings("__name__", "cnh", "job", j), "hist", genLife(r), 1))
+	}
+}
+
 // genDataset builds metrics foo (floats), bar (floats, hostile values), h (native histograms),
 // mixed (floats and histograms in one series), b_bucket (classic histogram), target_info and
 // build_info (info metrics), dup (series differing only in a label that functions drop).
@@ -252,6 +356,7 @@ func genDataset(r *gen.Rand) *dataset {
 	for i := 0; i < 160; i++ {
 		add("float", "__name__", "many", "g", fmt.Sprintf("g%d", i%7), "i", fmt.Sprintf("%d", i))
 	}
+	addLifeMetrics(r, d)
 	add("float", "__name__", "foo_total", "job", "a", "instance", "i0")
 	add("float", "__name__", "dup", "job", "a", "__type__", "counter")
 	add("float", "__name__", "dup2", "job", "a", "__type__", "counter")
